@@ -12,7 +12,8 @@ Import ListNotations.
 
 Inductive stmt :=
 | Skip | Lock (m : nat) | Unlock (m : nat) | Ret | Brk
-| Seq (a b : stmt) | If (a b : stmt) | Loop (body : stmt) | Touch.
+| Seq (a b : stmt) | If (a b : stmt) | Loop (body : stmt) | Touch
+| TouchM (m : nat).   (* an access that, when it happens inside a critical section at all, must be inside the one of mutex m *)
 
 Definition held := list nat.
 Inductive outcome := Normal (h : held) | Returned (h : held) | Broke (h : held) | Fault.
@@ -39,7 +40,9 @@ Inductive exec : stmt -> held -> outcome -> Prop :=
 | e_loop_ret body h h' : exec body h (Returned h') -> exec (Loop body) h (Returned h')
 | e_loop_fault body h : exec body h Fault -> exec (Loop body) h Fault
 | e_touch h : h <> [] -> exec Touch h (Normal h)
-| e_touch_bare : exec Touch [] Fault.
+| e_touch_bare : exec Touch [] Fault
+| e_touchm h m : h = [] \/ memb m h = true -> exec (TouchM m) h (Normal h)
+| e_touchm_other h m : h <> [] -> memb m h = false -> exec (TouchM m) h Fault.
 
 (* the sets of mutexes held, compared as sets written in the order of acquisition *)
 Fixpoint held_eqb (a b : held) : bool :=
@@ -86,6 +89,7 @@ Fixpoint chk (s : stmt) (h : held) : option (option held * option held) :=
       | None => None
       end
   | Touch => match h with [] => None | _ => Some (Some h, None) end
+  | TouchM m => match h with [] => Some (Some h, None) | _ => if memb m h then Some (Some h, None) else None end
   end.
 
 Definition fn_ok (body : stmt) : bool :=
@@ -124,7 +128,7 @@ Theorem chk_sound s : forall h n br o, chk s h = Some (n, br) -> exec s h o ->
   | Fault => False
   end.
 Proof.
-  induction s as [| m | m | | | a IHa b IHb | a IHa b IHb | body IH | ]; intros h n br o Hc He.
+  induction s as [| m | m | | | a IHa b IHb | a IHa b IHb | body IH | | m ]; intros h n br o Hc He.
   - inversion He; subst. cbn in Hc |- *. congruence.
   - cbn [chk] in Hc. inversion He; subst; rewrite H0 in Hc; [inversion Hc; reflexivity | discriminate].
   - cbn [chk] in Hc. inversion He; subst; rewrite H0 in Hc; [inversion Hc; reflexivity | discriminate].
@@ -155,6 +159,10 @@ Proof.
   - cbn [chk] in Hc. inversion He; subst.
     + destruct h as [|x t]; [exfalso; match goal with H : [] <> [] |- _ => apply H; reflexivity end|]. inversion Hc; reflexivity.
     + discriminate.
+  - cbn [chk] in Hc. inversion He; subst.
+    + destruct h as [|x t]; [inversion Hc; reflexivity|]. destruct (memb m (x :: t)); [inversion Hc; reflexivity | discriminate].
+    + destruct h as [|x t]; [exfalso; match goal with H : [] <> [] |- _ => apply H; reflexivity end|].
+      match goal with H : memb m (x :: t) = false |- _ => rewrite H in Hc end. discriminate.
 Qed.
 
 (* a function the checker accepts: every path that returns, or falls off the end, holds nothing; no path faults or breaks out *)
@@ -172,6 +180,8 @@ Proof. intros H o He. destruct (fn_ok_sound body o H He) as [-> | ->]; discrimin
 
 (* non-vacuity: a queue operation moved behind the unlock is rejected, the original order is accepted *)
 Example narrowed_section_rejected : fn_ok (Seq (Lock 0) (Seq (Unlock 0) Touch)) = false.
+Proof. reflexivity. Qed.
+Example wrong_mutex_rejected : fn_ok (Seq (Lock 0) (Seq (TouchM 1) (Unlock 0))) = false.
 Proof. reflexivity. Qed.
 Example guarded_accepted : fn_ok (Seq (Lock 0) (Seq Touch (Seq (Loop (Seq Touch (Seq (Lock 1) (Seq Touch (Unlock 1))))) (Unlock 0)))) = true.
 Proof. reflexivity. Qed.
